@@ -349,6 +349,8 @@ def decide(pid, cfg, tier, seed, args):
             for e in r2.errors:
                 f = attribute(fns, e['line']) if e['line'] else None
                 if f is not None and '::negctl' not in f['qual'] and not f['name'].startswith('negctl_'):
+                    if finding_for(f['qual'], e) is not None:
+                        continue    # explained by an open known finding (of this or of another property)
                     if f['qual'] not in [kk['obligation'] for kk in known_reported]:
                         bad.add(f['qual'])
             if bad:
